@@ -295,9 +295,14 @@ def level_grid_rule(ctx, chk, rule):
     zflow = Flow.of(zg)
     rng = [c for c in ast.walk(zg.node) if isinstance(c, ast.Call) and isinstance(c.func, ast.Name) and c.func.id == "range" and len(c.args) == 2]
     bq = None
-    for s in ctx.sites_in(zg):
-        if s.stmt is not None and s.stmt.kind == "select":
-            bq = s
+    selects = [s for s in ctx.sites_in(zg) if s.stmt is not None and s.stmt.kind == "select"]
+    # the bounds query: the SELECT whose columns are aggregates (other look-ups of the function, e.g. of the grid already
+    # stored, are not it)
+    agg_selects = [s for s in selects if s.stmt.columns and all(e[0] == "call" for e, _ in s.stmt.columns)]
+    if len(agg_selects) == 1:
+        bq = agg_selects[0]
+    elif len(selects) == 1:
+        bq = selects[0]
     if len(rng) != 1 or bq is None:
         chk.indeterminate(rule, where_of(zg, zg.node), "range(lower, upper) of level ids or the bounds query not found")
     else:
